@@ -92,7 +92,11 @@ var vAccs = []string{"read-write", "read", "write"}
 func vShape(r *rand.Rand) vRule {
 	a := vAccs[r.Intn(3)]
 	none := []vRule{}
-	switch r.Intn(10) {
+	switch r.Intn(13) {
+	case 10, 11:
+		return vRule{[]string{"{k}", "z"}, []string{"v", "{k}", "z"}, a, none}
+	case 12:
+		return vRule{[]string{"e", "x", "{k}"}, []string{"w", "x", "{k}"}, a, none}
 	case 0:
 		return vRule{[]string{"a"}, []string{"n"}, a, none}
 	case 1:
@@ -126,7 +130,7 @@ func vFlatReqs(prefix []string, defs []vRule) [][]string {
 	return out
 }
 
-var vSub = []string{"x", "y", "p", "q"}
+var vSub = []string{"x", "y", "p", "q", "z"}
 var vTop = []string{"a", "b", "c", "d", "e", "f", "h", "z"}
 
 func vReq(r *rand.Rand, reqs [][]string) []string {
@@ -195,7 +199,7 @@ func vClassify(err error) string {
 	return "error"
 }
 
-const vSchema = `{"schema": {"n": "int", "s": "string", "m": {"values": "int"}, "o": {"schema": {"p": "int", "q": "string"}}, "w": "any"}}`
+const vSchema = `{"schema": {"n": "int", "s": "string", "m": {"values": "int"}, "o": {"schema": {"p": "int", "q": "string"}}, "w": "any", "v": "any"}}`
 
 type vEnv struct {
 	storeSigning *assertstest.StoreStack
